@@ -70,6 +70,12 @@ class C10(Property):
         big = [0, 1, 2 ** 32 - 2, 2 ** 32 - 1, 2 ** 32, 2 ** 32 + 1, 2 ** 33 - 1, 2 ** 33, 2 ** 40 + 5, 2 ** 63, 2 ** 64 - 2 ** 32, 2 ** 64 - 2 ** 32 - 1, 2 ** 64 - 2, 2 ** 64 - 1]
         for b in ("k", "r", "t"):
             res.append(("corpus", "I %s i97 i98 %s" % (b, " ".join("u%d" % r for r in big))))
+        # more distinct text than any initial arena holds (16 KiB in 400 strings): interning must not hit a memory ceiling
+        def long_str(j):
+            return ".".join(str(97 + (j * 7 + k * 3) % 26) for k in range(36)) + "." + ".".join(str(48 + int(ch)) for ch in "%04d" % j)
+        for b in ("d", "w", "t", "a", "u"):
+            n = 400 if tier == "quick" else 1500
+            res.append(("corpus", "I %s %s i%s r0 r%d r%d" % (b, " ".join("i" + long_str(j) for j in range(n)), long_str(7), n - 1, n)))
         # capacity exhaustion of the small key types reached for real
         res.append(("corpus", "I c " + " ".join("i%d" % (1000 + i) for i in range(258)) + " i1000 j2000 r254 r255 r0"))
         if tier == "thorough" and os.environ.get("VERIF_SOAK"):
